@@ -88,6 +88,18 @@ def scenarios(tier):
                         sc['wake_grid'] = WAKES
                         bound = 1 if quick else 2
                     items.append((sc, bound))
+    # every party on a thread of its own (controlled receive threads, application threads) with a blocking driver whose frame
+    # is on the bus when the call returns (1.0) or at once, the call returning later (0.0)
+    for (k, b, both) in [(1, 0, False), (0, 1, False), (2, 1, True), (3, 0, True), (8, 4, False)]:
+        ms = batch(0x10, [0x20, 0x30, 0x21], k, b, 61)
+        if both:
+            ms += batch(0x20, [0x10, 0x11], min(k, 3), min(b, 1), 100)
+        for wins in [(1, 1, 1), (2, 3, 255), (255, 255, 255)]:
+            for base in (0.2e-3, 1e-3):
+                for cost in (0.3e-3, 2e-3):
+                    for vis in (0.0, 1.0):
+                        items.append(({'dll': DLL, 'stacks': stacks3(*wins), 'base_lat': base, 'send_cost': cost, 'send_visible': vis,
+                                       'rx_threads': True, 'msgs': ms}, 0))
     # a second message submitted right after the n-th bus frame of the first, for every n (both must be accepted and delivered)
     for (m1, m2) in [(msg(0x10, 'bam2', 0x31, 130), msg(0x10, 'bam2', 0x32, 100)),
                      (msg(0x10, 'p2p', 0x20, 150), msg(0x10, 'p2p', 0x20, 130)),
